@@ -192,18 +192,23 @@ def run(F, rep, tier):
         if not in_nint(fn):
             continue
         for m in F.matches.get(fn, []):
-            if m['kind'] != 'Normal' or len(m['arms']) != 2:
+            if m['kind'] != 'Normal' or len(m['arms']) not in (2, 3):
                 continue
             pp = [strip_ref(a['pat']) for a in m['arms']]
             if not all(p.get('k') == 'ts' for p in pp):
                 continue
             names = [p['p'] for p in pp]
-            if sorted(names) != ['nint::NInt::Big', 'nint::NInt::Small']:
+            if sorted(set(names)) != ['nint::NInt::Big', 'nint::NInt::Small']:
                 continue
             n2 += 1
             b = F.body(fn)
-            so = arm_ops(b, arm_region(F, b, m, names.index('nint::NInt::Small')))
-            bo = arm_ops(b, arm_region(F, b, m, names.index('nint::NInt::Big')))
+            so, bo = set(), set()
+            for i_, nm_ in enumerate(names):
+                ops_ = arm_ops(b, arm_region(F, b, m, i_))
+                if nm_.endswith('Small'):
+                    so |= ops_
+                else:
+                    bo |= ops_
             if fn in idioms:
                 rep.ok('R6.2', fn, 'idiom: ' + idioms[fn])
             elif so == bo:
